@@ -20,7 +20,7 @@ for id in "$@"; do
     if ! go test -vet=off -count=1 ./... > $wt/.suite.log 2>&1; then echo "SUITEFAIL"; exit 0; fi
     demo=$(ls $md/zz_demo*_test.go 2>/dev/null | head -1)
     [ -z "$demo" ] && { echo "NODEMO"; exit 0; }
-    pkg=$(grep -m1 '^package ' $demo | awk '{print $2}')
+    pkg=$(grep -m1 '^package ' $demo | awk '{print $2}'); pkg=${pkg%_test}
     # candidate dirs: directories of files in the patch first, then any dir whose package name matches
     cands=$(grep '^+++ b/' $md/patch.diff | sed 's#^+++ b/##' | xargs -n1 dirname | sort -u)
     cands="$cands $(grep -rl --include=*.go "^package $pkg\$" . 2>/dev/null | xargs -n1 dirname | sed 's#^\./##' | sort -u)"
